@@ -516,7 +516,9 @@ func runC15(res *lib.Result, tier string, seed int64, args []string) error {
 // the first one; the members assigned through that variable are members of the class, the members of the other
 // variable are not reached through it
 func c15ClassVariable(res *lib.Result) error {
-	src := "---@class FooZ\n---@field az number\nlocal FooZ, UtilZ = {}, {}\nfunction FooZ.barz() end\nfunction UtilZ.helperz() end\n\n---@type FooZ\nlocal vz = nil\nlocal q2 = vz.barz\nlocal q3 = vz.az\nprint(q2, q3)\n"
+	src := "---@class FooZ\n---@field az number\nlocal FooZ, UtilZ = {}, {}\nfunction FooZ.barz() end\nfunction UtilZ.helperz() end\n\n---@type FooZ\nlocal vz = nil\nlocal q2 = vz.barz\nlocal q3 = vz.az\nprint(q2, q3)\n" +
+		// … and a class block over a one-line constructor WITH a field: the class variable is the table, not its field
+		"---@class BarZ\n---@field bz number\nlocal BarZ = { xz = 1 }\nfunction BarZ.helloz() end\n\n---@type BarZ\nlocal wz = nil\nlocal q4 = wz.helloz\nlocal q5 = wz.xz\nprint(q4, q5)\n"
 	dir := lib.ScratchDir("c15cv")
 	defer os.RemoveAll(dir)
 	if err := lib.WriteWorkspace(dir, map[string]string{"main.lua": src}); err != nil {
@@ -531,7 +533,7 @@ func c15ClassVariable(res *lib.Result) error {
 	sess.Sync()
 	res.Count("class-variable-world", true)
 	res.Dist("definition.member-assigned-through-the-class-variable")
-	for _, q := range [][3]int{{8, 14, 3}, {9, 14, 1}} { // vz.barz → line 3 (function FooZ.barz), vz.az → line 1 (---@field az)
+	for _, q := range [][3]int{{8, 14, 3}, {9, 14, 1}, {18, 14, 14}, {19, 14, 13}} { // vz.barz → line 3 (function FooZ.barz), vz.az → line 1 (---@field az)
 		locs, err := sess.Definition("main.lua", q[0], q[1])
 		if err != nil {
 			res.AddViolation("crash-or-timeout", err.Error(), src, false)
